@@ -3980,6 +3980,10 @@ class SFTPClient:
                     if filename in (b'.', b'..'):
                         continue
 
+                    if b'/' in filename:
+                        raise SFTPBadMessage('Invalid file name in '
+                                             'directory listing')
+
                     srcfile = posixpath.join(srcpath, filename)
                     dstfile = posixpath.join(dstpath, filename)
 
